@@ -57,6 +57,11 @@ type Inst struct {
 	aofTrack   []aofSizeMark // (step, aofsz) whenever it changed
 	onGrantFn  func(r *lockReq)
 	onUnlockFn func(r *lockReq)
+
+	// fault injection at the hooks of the rewrite and flush paths
+	failAt      map[string]int // named I/O operation -> how many of the next calls fail
+	flushes     int            // AOF buffer writes so far
+	parkAtFlush int            // park the flushing goroutine at this flush (1-based), 0 = never
 }
 
 type aofSizeMark struct {
@@ -107,9 +112,29 @@ func installServerHooks() {
 		return l
 	}
 	verifPointHook = func(srv *Server, name string) {
-		if l, ok := srv.mu.(*simLock); ok {
-			l.point(name)
+		l, ok := srv.mu.(*simLock)
+		if !ok {
+			return
 		}
+		if name == "aof.flush" {
+			// every buffer write passes here; it becomes a decision point only in runs that
+			// aim a crash at one particular write (the torn-write fault)
+			l.inst.flushes++
+			if l.inst.dead || l.inst.parkAtFlush != l.inst.flushes {
+				return
+			}
+		}
+		l.point(name)
+	}
+	verifFaultHook = func(srv *Server, name string) error {
+		l, ok := srv.mu.(*simLock)
+		if !ok || l.inst.dead || l.inst.failAt[name] <= 0 {
+			return nil
+		}
+		l.inst.failAt[name]--
+		l.sim.stat("fault.io_error."+name, 1)
+		l.sim.logf("IOERR node %s %s", l.inst.node.name, name)
+		return fmt.Errorf("simulated I/O error at %s: no space left on device", name)
 	}
 	installNetHooks()
 }
